@@ -204,7 +204,7 @@ Proof. intros fo re. repeat split; reflexivity. Qed.
    inside runs of ties".  [ag], [pi], [pf] are the Go library functions the aggregate / order code
    calls (strconv, encoding/json, float64 bits, int64(float64)); no law is assumed about them. *)
 From KV Require Import Model.SelectPlans Proofs.SelectPlansProofs.
-From KV Require Model.Order Model.Aggregate Spec.Group.
+From KV Require Model.Order Model.Aggregate Model.AggregateLazy Spec.Group.
 
 (* batch_row_agree for EVERY statement buildFinalPlan accepts: projection or aggregates, with or
    without ORDER BY (incl. `order by key asc` alone, which builds no order node), with or without
@@ -277,29 +277,34 @@ Theorem batch_row_agree_aggregated_ordered_limit : forall (fo : fops) (re : byte
 Proof. exact SelectPlansProofs.select_agg_ordered_limit_batch_row. Qed.
 Print Assumptions batch_row_agree_aggregated_ordered_limit.
 
-(* the same for ANY scan / filter / projection / per-pair observation of the AggregatePlan whose
-   batch forms are pointwise their row forms (the glue hypotheses, stated explicitly; the theorems
-   above discharge them for the evaluator twins through exec_batch_ok) *)
+(* the same for ANY scan / filter / projection / observation of the AggregatePlan whose batch
+   forms are their row forms pair by pair (the glue hypotheses, stated explicitly; the theorems
+   above discharge them for the evaluator twins through exec_batch_ok).  What the AggregatePlan
+   evaluates on a pair depends on the keys of aggrMap seen so far ([T], initially [t0]): the glue
+   hypothesis is that one iteration of prepareBatch on a chunk evaluates what the iterations of
+   prepare on the chunk's pairs evaluate one after the other, from the same keys to the same keys *)
 Theorem batch_row_agree_statement_abstract : forall (P : Type)
     (frow : P -> res bool) (fbatch : list P -> res (list bool))
     (prow : P -> res Order.row) (pbatch : list P -> res (list Order.row))
     (F : Type) (fadd fsub fmul fdiv : F -> F -> F) (fltb : F -> F -> bool) (fis0 : F -> bool)
     (of_Z : Z -> F) (to_Z : F -> Z) (fmt_f bits_f : F -> bytes) (json_f : F -> option bytes)
     (parse_f : bytes -> option F) (json_s : bytes -> bytes)
-    (obs_row : P -> res (Group.pobs F)) (obs_batch : list P -> res (list (Group.pobs F)))
+    (T : Type) (t0 : T)
+    (obs_row : Group.plan F -> T -> P -> res (Group.pobs F * T))
+    (obs_batch : Group.plan F -> T -> list P -> res (list (Group.pobs F) * T))
     (aconv : list (Group.value F) -> Order.row) (pi pf : bytes -> option Z),
   (forall c bs, fbatch c = Ok bs -> Forall2 (fun kv b => frow kv = Ok b) c bs) ->
   (forall c rs, pbatch c = Ok rs ->
      Forall2 (fun kv r => exists r', prow kv = Ok r' /\ nrow r' = nrow r) c rs) ->
-  (forall c os, obs_batch c = Ok os ->
-     Forall2 (fun kv o => exists o', obs_row kv = Ok o' /\ pobs_sim F o' o) c os) ->
+  (forall p t c os t', obs_batch p t c = Ok (os, t') ->
+     exists os', AggregateLazy.smap_res (obs_row p) t c = Ok (os', t') /\ Forall2 (pobs_sim F) os' os) ->
   forall (B : nat), 1 <= B ->
   forall (s : stmt F) (sl : list (option P)) (outs : list Order.row),
   run_batch P fbatch pbatch F fadd fsub fmul fdiv fltb fis0 of_Z to_Z fmt_f bits_f json_f parse_f json_s
-            obs_batch aconv pi pf B s sl = Ok outs ->
+            T t0 obs_batch aconv pi pf B s sl = Ok outs ->
   exists rows,
     run_row P frow prow F fadd fsub fmul fdiv fltb fis0 of_Z to_Z fmt_f bits_f json_f parse_f json_s
-            obs_row aconv pi pf s sl = Ok rows /\
+            T t0 obs_row aconv pi pf s sl = Ok rows /\
     nrows rows = nrows outs.
 Proof. exact SelectPlansProofs.stmt_batch_row. Qed.
 Print Assumptions batch_row_agree_statement_abstract.
@@ -392,4 +397,69 @@ Example batch_row_agree_aggregated_nonvacuous : forall (fo : fops) (re : bytes -
     Ok [[Order.VBytes "y"; Order.VInt 2; Order.VInt 8]; [Order.VBytes "z"; Order.VInt 1; Order.VInt 4]] /\
   select_stmt_row fo re ag st_none st_none (sg_q fo (Some sg_orders) (Some (1, 2))) sg_store =
     Ok [[Order.VBytes "y"; Order.VInt 2; Order.VInt 8]; [Order.VBytes "z"; Order.VInt 1; Order.VInt 4]].
+Proof. intros fo re ag. repeat split; reflexivity. Qed.
+
+(* ================================================================== the evaluation discipline of the AggregatePlan
+   (appended; Model/AggregateLazy.v).  The statement-level theorems above are over the composition
+   in which the AggregatePlan evaluates EXACTLY what the Go code evaluates, in its order: GROUP BY
+   expressions on every pair (batch mode: ExecuteBatch on the whole chunk first), the
+   non-aggregate fields on the first pair of a group only, the first argument of every aggregate
+   call except count on every pair, nothing for count; and in which a pushed-down LIMIT completes
+   only the groups Next / Batch reach.  So they also cover the statements in which a skipped
+   evaluation would fail. *)
+From KV Require Proofs.AggregateLazyProofs.
+
+(* one iteration of prepareBatch on a chunk that succeeds => the iterations of prepare on the
+   chunk's pairs succeed one after the other, from the same keys of aggrMap to the same keys, with
+   the same values (up to string / []byte in the GROUP BY values): batch mode asks for nothing row
+   mode does not ask for *)
+Theorem aggregate_batch_iteration_evaluates_what_row_iterations_evaluate :
+  forall (fo : fops) (re : bytes -> bytes -> res bool) (ag : aggops fo)
+         (gs ks args : list expr) (p : Group.plan (F fo)) (t : AggregateLazy.seen) (c : list kvpair)
+         (os : list (Group.pobs (F fo))) (t' : AggregateLazy.seen),
+  c_lobs_batch fo re ag gs ks args p t c = Ok (os, t') ->
+  exists os', AggregateLazy.smap_res (c_lobs_row fo re ag gs ks args p) t c = Ok (os', t') /\
+              Forall2 (pobs_sim (F fo)) os' os.
+Proof. exact SelectPlansProofs.c_lobs_batch_ok. Qed.
+Print Assumptions aggregate_batch_iteration_evaluates_what_row_iterations_evaluate.
+
+(* the lazy composition refines the eager one (all three groups of expressions on every pair,
+   every group completed: what this file composed before): wherever the eager composition of
+   AggregatePlan(scan) answers with rows -- in row mode, or in batch mode at any B >= 1 -- the lazy
+   one answers with the same rows *)
+Theorem batch_row_agree_aggregated_lazy_refines_eager :
+  forall (fo : fops) (re : bytes -> bytes -> res bool) (ag : aggops fo) (q : cstmt fo)
+         (p : Group.plan (F fo)) (slots : list (option kvpair)) (rows : list (list (Group.value (F fo)))),
+  (select_agg_row_eager fo re ag q p slots = Ok rows -> select_agg_row fo re ag q p slots = Ok rows) /\
+  (forall B, 1 <= B ->
+   select_agg_batch_eager fo re ag B q p slots = Ok rows -> select_agg_batch fo re ag B q p slots = Ok rows).
+Proof.
+  intros. split; [apply SelectPlansProofs.select_agg_row_refines | intros B; apply SelectPlansProofs.select_agg_batch_refines].
+Qed.
+Print Assumptions batch_row_agree_aggregated_lazy_refines_eager.
+
+(* non-vacuity on the statements the eager composition could not answer:
+     select substr(key, 0, 1) as g, 10 / (int(value) - 3) as x, count(10 / (int(value) - 3)) as c
+     where key != 'zz' group by g, g
+   over a1 -> 1, a2 -> 3, b1 -> 2: x and count's argument fail on a2 (10 / 0), a later pair of
+   group a.  The Go code evaluates neither; both modes return two rows.  With sum in the place
+   of count the argument IS evaluated and the statement fails in both modes.  The eager
+   composition fails on the first statement too. *)
+Definition lz_g : expr := ECall 7 (EName 7 "substr") [EField 14 KeyKW; ENum 19 "0"; ENum 22 "1"].
+Definition lz_x : expr :=
+  EBin 33 ODiv (ENum 30 "10") (EBin 47 OSub (ECall 36 (EName 36 "int") [EField 40 ValueKW]) (ENum 49 "3")).
+Definition lz_store : list (option kvpair) := [Some ("a1", "1"); Some ("a2", "3"); Some ("b1", "2")].
+Definition lz_q (fo : fops) (f : Group.afun) : cstmt fo :=
+  CStmt fo sg_where None [lz_g; lz_g] [lz_g; lz_x] [lz_x]
+    (Stmt (F fo) (Some (false, [Group.FKey 0; Group.FKey 1; Group.FAgg (Group.AECall 0) [Group.Call f 0]]))
+          ["g"; "x"; "c"] [Order.TSTR; Order.TNUMBER; Order.TNUMBER] None None).
+Example batch_row_agree_aggregated_lazy_nonvacuous : forall (fo : fops) (re : bytes -> bytes -> res bool) (ag : aggops fo),
+  select_stmt_batch fo re ag st_none st_none 2 (lz_q fo Group.ACount) lz_store =
+    Ok [[Order.VBytes "a"; Order.VBytes "-5"; Order.VInt 2]; [Order.VBytes "b"; Order.VBytes "-10"; Order.VInt 1]] /\
+  select_stmt_row fo re ag st_none st_none (lz_q fo Group.ACount) lz_store =
+    Ok [[Order.VBytes "a"; Order.VBytes "-5"; Order.VInt 2]; [Order.VBytes "b"; Order.VBytes "-10"; Order.VInt 1]] /\
+  select_stmt_batch fo re ag st_none st_none 2 (lz_q fo Group.ASum) lz_store = Err (EExec 47) /\
+  select_stmt_row fo re ag st_none st_none (lz_q fo Group.ASum) lz_store = Err (EExec 47) /\
+  select_agg_row_eager fo re ag (lz_q fo Group.ACount) (Group.Plan false
+      [Group.FKey 0; Group.FKey 1; Group.FAgg (Group.AECall 0) [Group.Call Group.ACount 0]] 0 None) lz_store = Err (EExec 47).
 Proof. intros fo re ag. repeat split; reflexivity. Qed.
